@@ -315,6 +315,11 @@ def rule_scanexit(ctx):
                 has_rd = True
                 if n["pat"].get("k") == "Bind":
                     dist_locals.add(n["pat"]["local"])
+                else:
+                    # `let (mut closest_index, mut minimum_distance) = (0, dist_fn.rdistance(..))`: the float components
+                    for b in pat_bindings(n["pat"]):
+                        if (c.ty(b.get("t")) or "").strip().lstrip("&") not in ("usize", "u32", "u64", "i32", "i64", "bool"):
+                            dist_locals.add(b["local"])
         if not has_rd:
             continue
         n_scans += 1
